@@ -587,11 +587,13 @@ def gen_ident(rng, git_clean=False) -> bytes:
             out += gen_word(rng) if rng.random() < 0.7 else rng.choice(ODD_BYTES)
             if rng.random() < 0.3:
                 out += b" "
+            if not git_clean and rng.random() < 0.06:
+                out += rng.choice([b"> ", b">", b"<", b"> 1 +0000"])   # not git's grammar, still must round-trip
         return out
     name = part(1).strip(b" \t\r") or b"x"
     if git_clean:
         name = name.replace(b"\r", b"r").replace(b"\t", b"t")
-    email = part(0).replace(b" ", b"").replace(b"\t", b"").replace(b"\r", b"") if not git_clean or True else b""
+    email = part(0).replace(b" ", b"").replace(b"\t", b"").replace(b"\r", b"")
     k = rng.random()
     if k < 0.05 and not git_clean:
         return b"<" + email + b">"           # empty name (old git allowed it)
@@ -939,6 +941,34 @@ def _stream_prims(ctx, V):
                 ctx.oracle_fail("prim.header", {"num": num, "len": ln}, f"object_header gives {real}", None)
 
 
+def _oracle_tz(ctx, o, n, stream=None):
+    """what git emits for this zone ([+-]HHMM; the flag only means -0000), and back."""
+    import dulwich.objects as O
+    if not (o % 60 == 0 and abs(o) < 100 * 3600 and (not n or o == 0)):
+        return
+    rp = {"op": "tz", "offset": o, "neg": bool(n)}
+    want = ref_tz(o, n)
+    real = _try(O.format_timezone, o, n)
+    if real != want:
+        ctx.oracle_fail(stream or "tz.format", {"offset": o, "neg": n, "replay": rp}, f"format_timezone gives {real!r}, git spells {want!r}", None)
+    back = _try(O.parse_timezone, want)
+    if back != (o, n):
+        ctx.oracle_fail(stream or "tz.parse", {"text": hx(want), "replay": rp}, f"parse_timezone({want!r}) = {back}, expected {(o, n)}", None)
+
+
+def _oracle_te(ctx, p, t, z, n, stream=None):
+    import dulwich.objects as O
+    rp = {"op": "te", "person": hx(p), "time": t, "tz": z, "neg": bool(n)}
+    raw = _try(O.format_time_entry, p, t, (z, n))
+    want = p + b" " + str(t).encode() + b" " + ref_tz(z, n)
+    if raw != want:
+        ctx.oracle_fail(stream or "te.format", {"person": hx(p), "time": t, "tz": z, "neg": n, "replay": rp}, f"{raw!r} != {want!r}", None)
+        return
+    back = _try(O.parse_time_entry, raw)
+    if back != (p, t, (z, n)):
+        ctx.oracle_fail(stream or "te.roundtrip", {"raw": hx(raw), "replay": rp}, f"parse_time_entry gives {back}", None)
+
+
 def _stream_tz(ctx):
     import dulwich.objects as O
     rng = ctx.rng
@@ -960,17 +990,7 @@ def _stream_tz(ctx):
         _cmp(ctx, "tz.format", {"offset": o, "neg": n}, m, real)
         if real.startswith("ok"):
             texts.append(unhx(real[3:]))
-        # direct oracle: what git emits for this zone ([+-]HHMM; the flag only means -0000)
-        if o % 60 == 0 and abs(o) < 100 * 3600 and (not n or o == 0):
-            want = ref_tz(o, n)
-            if real != "ok " + hx(want):
-                ctx.oracle_fail("tz.format", {"offset": o, "neg": n}, f"format_timezone gives {real}, git spells {want!r}", None)
-            try:
-                back = O.parse_timezone(want)
-            except Exception as e:  # noqa: BLE001
-                back = type(e).__name__
-            if back != (o, n):
-                ctx.oracle_fail("tz.parse", {"text": hx(want)}, f"parse_timezone({want!r}) = {back}, expected {(o, n)}", None)
+        _oracle_tz(ctx, o, n)
     # --- parse_timezone: model vs real on emitted texts, every canonical spelling, mutations
     texts += [s + b"%02d%02d" % (h, m) for s in (b"+", b"-") for h in (0, 1, 5, 9, 10, 12, 14, 23, 99) for m in (0, 1, 15, 30, 45, 59)]
     texts += [b"", b"+", b"-", b"0000", b"+0", b"-0", b"--700", b"--0", b"+-5", b"-+5", b"+ 100", b"+1_00", b"+0100 ", b"\t+0100",
@@ -993,17 +1013,17 @@ def _stream_tz(ctx):
     outs = ctx.driver.batch([f"c01.fmtte {hx(p)} {t} {z} {int(n)}" for p, t, z, n in ents])
     raws = []
     for (p, t, z, n), m in zip(ents, outs):
-        real = "ok " + hx(O.format_time_entry(p, t, (z, n)))
+        real = _try(lambda: "ok " + hx(O.format_time_entry(p, t, (z, n))))
+        if isinstance(real, _Raised):
+            real = "err " + _errname(real.e)
+            ctx.oracle_fail("te.format", {"person": hx(p), "time": t, "tz": z, "neg": n}, "format_time_entry raised", None)
         ctx.count("te.format", (p, t, z, n), True)
         _cmp(ctx, "te.format", {"person": hx(p), "time": t, "tz": z, "neg": n}, m, real)
+        if not real.startswith("ok "):
+            continue
         raw = unhx(real[3:])
         raws.append(raw)
-        want = p + b" " + str(t).encode() + b" " + ref_tz(z, n)
-        if raw != want:
-            ctx.oracle_fail("te.format", {"person": hx(p), "time": t, "tz": z, "neg": n}, f"{raw!r} != {want!r}", None)
-        back = O.parse_time_entry(raw)
-        if back != (p, t, (z, n)):
-            ctx.oracle_fail("te.roundtrip", {"raw": hx(raw)}, f"parse_time_entry gives {back}", None)
+        _oracle_te(ctx, p, t, z, n)
     raws += [b"A <a@b>", b"A <a@b> ", b"A <a@b> 1", b"A <a@b> 1 ", b"A <a@b>  1 +0000", b"A <a@b> 1  +0000", b"> 1 +0000",
              b"A <a> b> 1 +0000", b"A <a@b> 1 2 +0000", b"A <a@b> +1 +0000", b"A <a@b> 1_0 +0000", b"no brackets 1 +0000",
              b"A <a@b> x +0000", b"A <a@b> 1 0000"]
@@ -1051,6 +1071,20 @@ def _real_parse_message(raw: bytes):
         return "err " + _errname(e), None, None
 
 
+def _oracle_msg(ctx, hs, body, stream="msg.roundtrip"):
+    """parse(format(hs, body)) == (hs, body or b"") for well-formed field names, on the real code."""
+    import dulwich.objects as O
+    wf = all(k and b" " not in k and b"\n" not in k for k, _ in hs)
+    if not wf:
+        return
+    real = _try(lambda: b"".join(O._format_message(hs, body)))
+    _, phs, pbody = _real_parse_message(real) if not isinstance(real, _Raised) else (None, real, None)
+    if phs != hs or pbody != (body or b""):
+        ctx.oracle_fail(stream, {"headers": [(hx(k), hx(v)) for k, v in hs], "body": ob(body),
+                                 "replay": {"op": "msg", "headers": [[hx(k), hx(v)] for k, v in hs], "body": ob(body)}},
+                        f"_parse_message(_format_message(..)) = {phs}, {pbody!r}", None)
+
+
 def _stream_msg(ctx):
     import dulwich.objects as O
     rng = ctx.rng
@@ -1066,13 +1100,7 @@ def _stream_msg(ctx):
         ctx.count("msg.format", (tuple(hs), body), True, f"h{len(hs)}")
         _cmp(ctx, "msg.format", {"headers": [(hx(k), hx(v)) for k, v in hs], "body": ob(body)}, m, hx(real))
         raws.append(real)
-        # direct oracle: parse(format(hs, body)) == (hs, body or b"") for well-formed field names
-        wf = all(k and b" " not in k and b"\n" not in k for k, _ in hs)
-        if wf:
-            _, phs, pbody = _real_parse_message(real)
-            if phs != hs or pbody != (body or b""):
-                ctx.oracle_fail("msg.roundtrip", {"headers": [(hx(k), hx(v)) for k, v in hs], "body": ob(body)},
-                                f"_parse_message(_format_message(..)) = {phs}, {pbody!r}", None)
+        _oracle_msg(ctx, hs, body)
     raws += [b"", b"\n", b"\n\n", b" \n", b" x", b"k", b"k\n", b"k v", b"k v\n", b"k v\n x", b"k v\n\n", b" c\nk v\n\nb", b"k v\n c\n",
              b"k v\n c\n\n", b"k  v\n", b"k \n", b"k v\nnospace\n\nb", b"\nk v\n", b"k v\r\n\r\nb"]
     raws += [mutate(rng, rng.choice(raws[:200])) for _ in range(ctx.budget(500))]
@@ -1085,6 +1113,26 @@ def _stream_msg(ctx):
 
 def _entries_tokens(es):
     return [(hx(n), m, hx(h)) for n, m, h in es]
+
+
+def _oracle_tree(ctx, case, es, rr, stream=None):
+    """direct oracle (property words) on a worker's round-trip report: git order and spelling, lossless parse,
+    id = hash, stable re-serialisation."""
+    import functools
+    raw = unhx(rr["raw"])
+    legal = all(m in MODES for _, m, _ in es) and all(b"/" not in nme for nme, _, _ in es)
+    if legal:
+        want = ref_tree(es)
+        if raw != want:
+            ctx.oracle_fail(stream or "tree.bytes", case, f"Tree bytes differ from git's encoding/order: {rr['raw'][:120]} vs {hx(want)[:120]}", None)
+        want_items = "ok " + lst(ent(*e) for e in sorted(
+            es, key=functools.cmp_to_key(lambda x, y: git_name_cmp((x[0], x[1]), (y[0], y[1])))))
+        if "ok " + rr["items2"] != want_items:
+            ctx.oracle_fail(stream or "tree.roundtrip", case, "parse(serialise(entries)) does not return the entries in git order", None)
+        if rr["raw2"] != rr["raw"] or rr["id2"] != rr["id"]:
+            ctx.oracle_fail(stream or "tree.reserialise", case, "re-serialising the parsed tree after touching one entry changes bytes", None)
+    if rr["id"] != sha_hex("sha1", "tree", raw).decode() or rr["id256"] != sha_hex("sha256", "tree", raw).decode():
+        ctx.oracle_fail(stream or "tree.id", case, "Tree id is not the hash of header+bytes", None)
 
 
 def _stream_tree(ctx, V):
@@ -1119,30 +1167,19 @@ def _stream_tree(ctx, V):
         reps = V.batch(variant, reqs)
         for i, (algo, es) in enumerate(cases):
             rs, rr = reps[2 * i], reps[2 * i + 1]
-            case = {"variant": variant, "algo": algo, "entries": [(hx(a), b, hx(c)) for a, b, c in es]}
+            case = {"variant": variant, "algo": algo, "entries": [(hx(a), b, hx(c)) for a, b, c in es],
+                    "replay": {"op": "tree", "variant": variant, "algo": algo, "entries": [[hx(a), b, hx(c)] for a, b, c in es]}}
             twin = len({e[0].rstrip(b"/") for e in es}) < len(es) or any(
                 a[0] != b[0] and (a[0].startswith(b[0]) or b[0].startswith(a[0])) for a in es for b in es)
             ctx.count("tree.sort", (variant, algo, tuple(es)), True, f"{variant}:n{min(len(es), 9)}" + (":collide" if twin else ""))
             _cmp(ctx, "tree.sort", case, sort_m[i], rs, variant)
             if isinstance(rr, str):
                 _cmp(ctx, "tree.ser", case, ser_m[i], rr, variant)
+                if all(m in MODES for _, m, _ in es) and all(b"/" not in nme for nme, _, _ in es):
+                    ctx.oracle_fail("tree.roundtrip", case, f"a tree of legal entries cannot be serialised and parsed back: {rr}", None)
                 continue
             _cmp(ctx, "tree.ser", case, ser_m[i], "ok " + rr["raw"], variant)
-            raw = unhx(rr["raw"])
-            # ---- direct oracle (property words): git order and spelling, lossless parse, id = hash, stable re-serialisation
-            legal = all(m in MODES for _, m, _ in es) and all(b"/" not in nme for nme, _, _ in es)
-            if legal:
-                want = ref_tree(es)
-                if raw != want:
-                    ctx.oracle_fail("tree.bytes", case, f"Tree bytes differ from git's encoding/order: {rr['raw'][:120]} vs {hx(want)[:120]}", None)
-                want_items = "ok " + lst(ent(*e) for e in sorted(
-                    es, key=__import__("functools").cmp_to_key(lambda x, y: git_name_cmp((x[0], x[1]), (y[0], y[1])))))
-                if "ok " + rr["items2"] != want_items:
-                    ctx.oracle_fail("tree.roundtrip", case, "parse(serialise(entries)) does not return the entries in git order", None)
-                if rr["raw2"] != rr["raw"] or rr["id2"] != rr["id"]:
-                    ctx.oracle_fail("tree.reserialise", case, "re-serialising the parsed tree after touching one entry changes bytes", None)
-            if rr["id"] != sha_hex("sha1", "tree", raw).decode() or rr["id256"] != sha_hex("sha256", "tree", raw).decode():
-                ctx.oracle_fail("tree.id", case, "Tree id is not the hash of header+bytes", None)
+            _oracle_tree(ctx, case, es, rr)
     if cases:
         ctx.sample({"stream": "tree", "entries": [(a.decode("latin1"), oct(b)) for a, b, _ in cases[-1][1]][:6]})
     # ---- parse: canonical bytes (reference-serialised) and mutations, both variants, model vs real
@@ -1303,6 +1340,14 @@ def _handwritten(kind):
 
 
 def _touch_oracle(ctx, kind, raw: bytes, rng, stream=None, attrs=None):
+    try:
+        _touch_oracle_inner(ctx, kind, raw, rng, stream, attrs)
+    except Exception as e:  # noqa: BLE001
+        ctx.oracle_fail(stream or f"{kind}.touch", {"kind": kind, "raw": hx(raw), "replay": {"op": "touch", "kind": kind, "raw": hx(raw)}},
+                        f"real code raised on a canonical {kind}: {type(e).__name__}: {e}", None)
+
+
+def _touch_oracle_inner(ctx, kind, raw: bytes, rng, stream=None, attrs=None):
     """"re-serialising a parsed well-formed object, unchanged or with one field changed, reproduces every
     other byte exactly": parse canonical bytes; (a) unchanged; (b) assign one attribute its own value
     (forces a re-serialisation, must reproduce every byte); (c) change one attribute: the result must be
@@ -1533,12 +1578,18 @@ def _run_sequence(ctx, kind, seq, stream="edits"):
     obj, f = new_obj()
     last_mut, setraw_content = "init", None
     for i, op in enumerate(seq["ops"]):
-        f, _, mut, rawc = _apply_op(kind, obj, f, op, ref)
+        try:
+            f, _, mut, rawc = _apply_op(kind, obj, f, op, ref)
+        except Exception as e:  # noqa: BLE001
+            ctx.oracle_fail(stream, {"kind": kind, "init": seq.get("init_repr"), "ops": [repr(o) for o in seq["ops"][: i + 1]],
+                                     "replay": {"op": "seq", "kind": kind, "seq": _seq_to_json(seq, i + 1)}},
+                            f"operation with valid values raised {type(e).__name__}: {e}", None)
+            return
         if mut is not None:
             last_mut, setraw_content = mut, rawc
         got_id, got_raw = _id_or_none(obj), _raw_or_none(obj)
         case = {"kind": kind, "init": seq.get("init_repr"), "ops": [repr(o) for o in seq["ops"][: i + 1]],
-                "replay": {"kind": kind, "seq": _seq_to_json(seq, i + 1)}}
+                "replay": {"op": "seq", "kind": kind, "seq": _seq_to_json(seq, i + 1)}}
         cls_ = None
         if kind == "blob" and last_mut == "chunked":
             cls_ = "blob-chunked-setter"
@@ -1561,7 +1612,10 @@ def _run_sequence(ctx, kind, seq, stream="edits"):
     if kind in ("commit", "tag"):
         steps.append(("S", type(obj).__name__, "message", dict(f)))     # the state after the initial setters
     for op in seq["ops"]:
-        f, st, _, _ = _apply_op(kind, obj, f, op, ref)
+        try:
+            f, st, _, _ = _apply_op(kind, obj, f, op, ref)
+        except Exception:  # noqa: BLE001  (already reported by the oracle run above)
+            return
         steps.append(st)
     ser_states = []
     for st in steps:
@@ -1784,6 +1838,22 @@ def _stream_blob(ctx):
 # ------------------------------------------------------------------------------------------------
 # C git as a third party
 
+class _Raised:
+    def __init__(self, e):
+        self.e = e
+
+    def __repr__(self):
+        return f"raised {type(self.e).__name__}: {self.e}"
+
+
+def _try(fn, *a, **k):
+    """Run real code; an exception becomes a value the oracle reports (never a harness crash)."""
+    try:
+        return fn(*a, **k)
+    except Exception as e:  # noqa: BLE001
+        return _Raised(e)
+
+
 def _git(ctx, repo, args, inp=None, env=None, ok_codes=(0,)):
     p = subprocess.run(["git", "-C", str(repo)] + args, input=inp, stdout=subprocess.PIPE, stderr=subprocess.PIPE,
                        env=core.clean_env(env), timeout=300)
@@ -1835,7 +1905,7 @@ def _stream_git(ctx):
         for d, gi in zip(blobs, ids or []):
             b = O.Blob.from_string(d)
             ctx.count("git.hash-object", (algo, "blob", d), True, f"{algo}:blob")
-            if gid(b).decode() != gi:
+            if _try(lambda: gid(b).decode()) != gi:
                 ctx.oracle_fail("git.hash-object", {"algo": algo, "kind": "blob", "data": hx(d)}, f"git names it {gi}, dulwich {gid(b)}", None)
         blob_id, empty_blob = (ids or [None, None])[1], (ids or [None])[0]
         # ---- trees: dulwich bytes -> hash-object; entries -> mktree
@@ -1846,21 +1916,31 @@ def _stream_git(ctx):
         tcases.append([(x, 0o040000 if i % 2 else 0o100644, gen_hex(rng, algo).replace(b"00" * 8, b"11" * 8)) for i, x in enumerate(fam)])
         tcases.append([(x, 0o100644 if i % 2 else 0o040000, gen_hex(rng, algo).replace(b"00" * 8, b"11" * 8)) for i, x in enumerate(fam)])
         traws = []
-        for es in tcases:
+
+        def _mk_tree(es):
             t = O.Tree()
             t.object_format = fmt
             for nm, m, h in es:
                 t.add(nm, m, h)
-            traws.append(t.as_raw_string())
+            return t.as_raw_string()
+        for es in list(tcases):
+            r = _try(_mk_tree, es)
+            if isinstance(r, _Raised):
+                ctx.oracle_fail("git.hash-object", {"algo": algo, "kind": "tree", "entries": [(hx(a), b, c.decode()) for a, b, c in es]},
+                                f"legal entries do not serialise: {r}", None)
+                tcases.remove(es)
+            else:
+                traws.append(r)
         ids, err = hash_objects("tree", traws)
         if ids is None:
             ctx.oracle_fail("git.hash-object", {"algo": algo, "kind": "tree"}, f"git rejects a dulwich tree: {err[:300]}", None)
         for es, raw, gi in zip(tcases, traws, ids or []):
             ctx.count("git.hash-object", (algo, "tree", raw), True, f"{algo}:tree")
             mine = sha_hex(algo, "tree", raw).decode()
-            t = O.ShaFile.from_raw_string(2, raw, object_format=fmt)
-            if gi != mine or gid(t).decode() != gi:
-                ctx.oracle_fail("git.hash-object", {"algo": algo, "kind": "tree", "raw": hx(raw)}, f"git names it {gi}, dulwich {gid(t)}", None)
+            t = _try(O.ShaFile.from_raw_string, 2, raw, object_format=fmt)
+            if isinstance(t, _Raised) or gi != mine or gid(t).decode() != gi:
+                ctx.oracle_fail("git.hash-object", {"algo": algo, "kind": "tree", "raw": hx(raw)},
+                                f"git names it {gi}, dulwich {t if isinstance(t, _Raised) else gid(t)}", None)
             written[gi] = ("tree", {"algo": algo, "raw": hx(raw)})
         for es, raw in list(zip(tcases, traws))[: max(6, n // 3)] + list(zip(tcases, traws))[-2:]:
             typ = lambda m: "tree" if m == 0o040000 else ("commit" if m == 0o160000 else "blob")   # noqa: E731
@@ -1883,16 +1963,23 @@ def _stream_git(ctx):
             f["tree"] = empty_tree.encode()
             f["parents"] = []
             ccases.append(f)
-        craws = [build_commit(f).as_raw_string() for f in ccases]
+        craws = [_try(lambda f=f: build_commit(f).as_raw_string()) for f in ccases]
+        for f, r in zip(ccases, craws):
+            if isinstance(r, _Raised):
+                ctx.oracle_fail("git.hash-object", {"algo": algo, "kind": "commit", "fields": {k: repr(v) for k, v in f.items()}},
+                                f"canonical values do not serialise: {r}", None)
+        ccases = [f for f, r in zip(ccases, craws) if not isinstance(r, _Raised)]
+        craws = [r for r in craws if not isinstance(r, _Raised)]
         ids, err = hash_objects("commit", craws)
         if ids is None:
             ctx.oracle_fail("git.hash-object", {"algo": algo, "kind": "commit"}, f"git rejects a dulwich commit: {err[:300]}", None)
         commit_ids = []
         for f, raw, gi in zip(ccases, craws, ids or []):
             ctx.count("git.hash-object", (algo, "commit", raw), True, f"{algo}:commit")
-            c = O.Commit.from_string(raw)
-            if gid(c).decode() != gi:
-                ctx.oracle_fail("git.hash-object", {"algo": algo, "kind": "commit", "raw": hx(raw)}, f"git names it {gi}, dulwich {gid(c)}", None)
+            c = _try(O.Commit.from_string, raw)
+            if isinstance(c, _Raised) or gid(c).decode() != gi:
+                ctx.oracle_fail("git.hash-object", {"algo": algo, "kind": "commit", "raw": hx(raw)},
+                                f"git names it {gi}, dulwich {c if isinstance(c, _Raised) else gid(c)}", None)
             written[gi] = ("commit", {"algo": algo, "raw": hx(raw)})
             commit_ids.append(gi)
         for i in range(max(5, n // 4)):
@@ -1942,12 +2029,13 @@ def _stream_git(ctx):
             gi = p.stdout.decode().strip()
             graw, _ = _git(ctx, repo, ["cat-file", "commit", gi])
             c = build_commit(f)
-            if graw != c.as_raw_string() or gid(c).decode() != gi:
+            craw = _try(c.as_raw_string)
+            if graw != craw or gid(c).decode() != gi:
                 ctx.oracle_fail("git.commit-tree", {"algo": algo, "fields": {k: repr(v) for k, v in f.items()}},
-                                f"git writes {graw!r}, dulwich {c.as_raw_string()!r}", None)
+                                f"git writes {graw!r}, dulwich {craw!r}", None)
             else:
-                back = commit_fields_of(O.Commit.from_string(graw))
-                if _norm_msg(back) != _norm_msg(f):
+                back = _try(lambda: commit_fields_of(O.Commit.from_string(graw)))
+                if isinstance(back, _Raised) or _norm_msg(back) != _norm_msg(f):
                     ctx.oracle_fail("git.commit-tree", {"algo": algo, "raw": hx(graw)}, "dulwich parses git's commit into other values", None)
         # ---- tags: dulwich bytes -> mktag (git validates strictly) and hash-object
         targets = [(empty_tree.encode(), b"tree")] + [(c.encode(), b"commit") for c in commit_ids[:5]]
@@ -1957,15 +2045,22 @@ def _stream_git(ctx):
         for _ in range(n):
             f = _gitify(gen_tag_fields(rng, "git", algo, target=rng.choice(targets)), "tag")
             tagcases.append(f)
-        tagraws = [build_tag(f).as_raw_string() for f in tagcases]
+        tagraws = [_try(lambda f=f: build_tag(f).as_raw_string()) for f in tagcases]
+        for f, r in zip(tagcases, tagraws):
+            if isinstance(r, _Raised):
+                ctx.oracle_fail("git.hash-object", {"algo": algo, "kind": "tag", "fields": {k: repr(v) for k, v in f.items()}},
+                                f"canonical values do not serialise: {r}", None)
+        tagcases = [f for f, r in zip(tagcases, tagraws) if not isinstance(r, _Raised)]
+        tagraws = [r for r in tagraws if not isinstance(r, _Raised)]
         ids, err = hash_objects("tag", tagraws)
         if ids is None:
             ctx.oracle_fail("git.hash-object", {"algo": algo, "kind": "tag"}, f"git rejects a dulwich tag: {err[:300]}", None)
         for f, raw, gi in zip(tagcases, tagraws, ids or []):
             ctx.count("git.hash-object", (algo, "tag", raw), True, f"{algo}:tag")
-            t = O.Tag.from_string(raw)
-            if gid(t).decode() != gi:
-                ctx.oracle_fail("git.hash-object", {"algo": algo, "kind": "tag", "raw": hx(raw)}, f"git names it {gi}, dulwich {gid(t)}", None)
+            t = _try(O.Tag.from_string, raw)
+            if isinstance(t, _Raised) or gid(t).decode() != gi:
+                ctx.oracle_fail("git.hash-object", {"algo": algo, "kind": "tag", "raw": hx(raw)},
+                                f"git names it {gi}, dulwich {t if isinstance(t, _Raised) else gid(t)}", None)
             written[gi] = ("tag", {"algo": algo, "raw": hx(raw)})
         for f, raw in list(zip(tagcases, tagraws))[: max(5, n // 4)]:
             out, err = _git(ctx, repo, ["mktag"], raw)
@@ -2001,7 +2096,8 @@ def _run_corpus(ctx, V):
         _replay_case(ctx, c, "corpus", V)
 
 
-def _replay_case(ctx, c: dict, stream: str, V=None):
+def _replay_case(ctx, c: dict, stream: str, V=None) -> bool:
+    """Re-run the direct oracle on one recorded case.  False: this kind of case cannot be replayed alone."""
     op = c.get("op")
     if op == "seq":
         _run_sequence(ctx, c["kind"], _seq_from_json(c["kind"], c["seq"]), stream)
@@ -2012,8 +2108,30 @@ def _replay_case(ctx, c: dict, stream: str, V=None):
         if "extra" in f:
             f["extra"] = [tuple(x) for x in f["extra"]]
         _fields_oracle(ctx, c["kind"], f, stream)
+    elif op == "msg":
+        _oracle_msg(ctx, [(unhx(k), unhx(v)) for k, v in c["headers"]], None if c["body"] == "~" else unhx(c["body"]), stream)
+    elif op == "tz":
+        _oracle_tz(ctx, c["offset"], c["neg"], stream)
+    elif op == "te":
+        _oracle_te(ctx, unhx(c["person"]), c["time"], c["tz"], c["neg"], stream)
+    elif op == "tree":
+        own = V is None
+        V = V or Variants(ctx)
+        try:
+            es = [(unhx(a), b, unhx(h)) for a, b, h in c["entries"]]
+            if c["variant"] in V.workers:
+                rr = V.batch(c["variant"], [("roundtrip", {"entries": _entries_tokens(es), "sha_len": 20 if c["algo"] == "sha1" else 32})])[0]
+                case = {"variant": c["variant"], "algo": c["algo"], "entries": c["entries"]}
+                if isinstance(rr, str):
+                    ctx.oracle_fail(stream, case, f"a tree of legal entries cannot be serialised and parsed back: {rr}", None)
+                else:
+                    _oracle_tree(ctx, case, es, rr, stream)
+        finally:
+            if own:
+                V.close()
     else:
-        print(f"replay: case kind {op!r} is not replayable on its own; re-run ./check C01 with the recorded seed")
+        return False
+    return True
 
 
 def _fields_oracle(ctx, kind, f, stream=None):
@@ -2026,7 +2144,10 @@ def _fields_oracle(ctx, kind, f, stream=None):
     cls = Commit if kind == "commit" else Tag
     case = {"kind": kind, "fields": {k: repr(v) for k, v in f.items()}, "replay": {"op": "fields", "kind": kind, "fields": _j(f)}}
     klass = _fields_class(kind, f)
-    obj = build(f)
+    obj = _try(build, f)
+    if isinstance(obj, _Raised):
+        ctx.oracle_fail(stream or f"{kind}.ser", case, f"setting canonical field values raised: {obj}", klass)
+        return "err other", None
     real = try_raw(obj)
     if not real.startswith("ok "):
         ctx.oracle_fail(stream or f"{kind}.ser", case, f"canonical field values do not serialise: {real}", klass)
@@ -2035,7 +2156,7 @@ def _fields_oracle(ctx, kind, f, stream=None):
     want = ref(f)
     if raw != want:
         ctx.oracle_fail(stream or f"{kind}.bytes", case, f"as_raw_string differs from git's encoding: {raw[-120:]!r} vs {want[-120:]!r}", klass)
-    if obj.id != sha_hex("sha1", kind, raw) or obj.get_id(SHA256) != sha_hex("sha256", kind, raw):
+    if _try(lambda: obj.id) != sha_hex("sha1", kind, raw) or _try(obj.get_id, SHA256) != sha_hex("sha256", kind, raw):
         ctx.oracle_fail(stream or f"{kind}.id", case, "id is not the hash of header+as_raw_string", klass)
     try:
         back = fields_of(cls.from_string(raw))
@@ -2110,7 +2231,10 @@ def search(ctx: core.Ctx):
 def replay(ctx: core.Ctx, data: dict) -> int:
     c = data.get("case", data)
     rp = c.get("replay", c)
-    _replay_case(ctx, rp, "replay")
+    if not _replay_case(ctx, rp, "replay"):
+        print("replay: this record carries no self-contained failing input (a model/implementation disagreement or a "
+              f"broken proof obligation); re-run: VERIF_SEED={data.get('seed', 0)} ./check C01 --tier {data.get('tier', 'quick')}")
+        return 2
     for f in ctx.oracle_failures:
         print("replay:", f["what"][:300])
     if ctx.oracle_failures:
